@@ -1207,6 +1207,8 @@ class Engine:
                 return pymod(us, z3.IntVal(10**6))
             if attr == 'total_seconds':
                 return BoundMethod(base, attr)
+        if isinstance(base, DT) and getattr(base, 'hms', None) is not None and attr in ('hour', 'minute', 'second'):
+            return base.hms[('hour', 'minute', 'second').index(attr)]     # an instant given by its clock fields
         if isinstance(base, DT) and base.parts is not None and attr in ('hour', 'minute', 'second', 'microsecond'):
             _, sec, usec = base.parts
             sec = zint(sec)
@@ -1915,6 +1917,11 @@ class Engine:
             return join(recv, args[0].items)
         if isinstance(recv, str) and name == 'join' and isinstance(args[0], PyList) and all(isinstance(x, str) for x in args[0].items):
             return recv.join(args[0].items)
+        if isinstance(recv, str) and recv != '' and name == 'join' and isinstance(args[0], PyList):
+            from .models.text import Joined
+            j = Joined(list(args[0].items))         # sep.join(items): the items are remembered, the separator too
+            j.sep = recv
+            return j
         if recv == '' and name == 'join' and isinstance(args[0], PyList):
             from .models.text import Joined
             return Joined(list(args[0].items))
@@ -2086,6 +2093,8 @@ class Engine:
             if len(args) > 1:
                 if hasattr(v, 'to_int'):
                     return v.to_int(self, args[1])
+                if isinstance(v, (int, float, Ratio)) or (z3.is_expr(v) and z3.is_arith(v)):
+                    raise PyRaise('TypeError')      # int() can't convert non-string with explicit base
                 raise Unsupported('int(x, base)')
             if isinstance(v, bool):
                 return int(v)
@@ -2331,6 +2340,14 @@ class Engine:
                 return DT(D * zint(p[0]), (p[0], 0, 0))
             return DT(us - pymod(us, z3.IntVal(D)))
         day = zint(p[0]) if p is not None else floordiv(us, z3.IntVal(D))
+        if keys == {'hour', 'minute', 'second'}:
+            # same day and microsecond, new time of day (datetime.replace rejects out-of-range fields with ValueError)
+            h, m, sec = (zint(kw[k]) for k in ('hour', 'minute', 'second'))
+            if not self.branch(z3.And(0 <= h, h < 24, 0 <= m, m < 60, 0 <= sec, sec < 60)):
+                raise PyRaise('ValueError')
+            usec = zint(p[2]) if p is not None else pymod(us, z3.IntVal(10**6))
+            sod = 3600 * h + 60 * m + sec
+            return DT(D * day + 10**6 * sod + usec, (day, sod, usec))
         if keys == {'day', 'hour', 'minute', 'second', 'microsecond'} and kw['day'] == 1 and all(kw[k] == 0 for k in keys - {'day'}):
             ms = self.world['month_start'](day)
             return DT(ms * D, (ms, 0, 0))
